@@ -40,8 +40,12 @@ def ty_to_tree(t, tbl):
         return ("union",) + tuple(ty_to_tree(a, tbl) for a in t.__args__)
     if t is typing.Callable or (origin is collections.abc.Callable and False):
         return "callable"
+    if origin is None and getattr(t, "__module__", None) == "typing" and hasattr(t, "__origin__"):
+        raise Unrepresentable("bare generic %r" % (t,))
     if origin is not None:
-        args = t.__args__
+        args = getattr(t, "__args__", None)
+        if args is None:
+            raise Unrepresentable("bare generic %r" % (t,))
         if origin is list:
             return ("list", ty_to_tree(args[0], tbl))
         if origin is set:
